@@ -188,7 +188,8 @@ def run_trees(chk, cases, configs=("base",), positions=("field", "vfield", "payl
                     if all(e["msg"].startswith("generate:") for e in r["errors"]):
                         chk.extra["refused_by_backend"] = chk.extra.get("refused_by_backend", 0) + 1
                         continue
-                    raise ToolError(f"type case rejected by the parser: {r['errors']}\n{src}")
+                    chk.refused(f"{lang}/{cname}", f"{lang} ({cname}): type case `{rust_text(tree)}` rejected by the parser: {str(r['errors'])[:200]}", {"tree": tree, "lang": lang, "config": cname, "default_attr": da, "bare": bare, "pos": "field"})
+                    continue
                 pfx = prefix if lang in ("swift", "kotlin") else ""
                 obs = observations(lang, r["obs"], pfx, positions, cname)
                 al = aliases_of(r["obs"])
